@@ -3,6 +3,7 @@
 -/
 import DfolsVerif.Accept.CountAcc
 import DfolsVerif.Accept.BookAcc
+import DfolsVerif.Accept.RunsAcc
 import DfolsVerif.Driver.Proto
 
 namespace Dfols.AcceptDrv
@@ -75,32 +76,37 @@ def showCand : Option BookAcc.Cand → String
   | none => "-"
   | some c => s!"{c.pt}:{c.en}:{c.ns}:{showVal c.obj}:{showNats c.resid}"
 
-def report (maxfun : Nat) (hasH : Bool) (evs : List Ev) : String :=
+def report (maxfun : Nat) (hasH : Bool) (maxUnsucc : Nat) (absTol : Val) (evs : List Ev) : String :=
   let c := match runAcc CountAcc.step (CountAcc.init maxfun) evs with
     | .ok s => s!"count=ok nf={s.nf} nx={s.nx} groups={s.groups.length}"
     | .error (i, m) => s!"count=rej@{i}:{m}"
   let b := match runAcc BookAcc.step (BookAcc.init hasH) evs with
     | .ok s => s!"book=ok best={showCand s.best} averaged={showBool s.averaged} runs={s.nrunsSeen}"
     | .error (i, m) => s!"book=rej@{i}:{m}"
-  c ++ " | " ++ b
+  let r := match runAcc RunsAcc.step (RunsAcc.init maxfun maxUnsucc absTol) evs with
+    | .ok s => s!"exits=ok nruns={s.nruns} rends={s.rends} soft={s.softOK} rsts={s.rsts}"
+    | .error (i, m) => s!"exits=rej@{i}:{m}"
+  c ++ " | " ++ b ++ " | " ++ r
 
 structure DSt where
   active : Bool := false
   maxfun : Nat := 0
   hasH : Bool := false
+  maxUnsucc : Nat := 10
+  absTol : Val := .nan
   evs : Array Ev := #[]
   bad : Option String := none
 
 def handle (st : DSt) (ts : List String) : DSt × String :=
   match ts with
-  | ["begin", maxfun, hasH] =>
-    match maxfun.toNat?, parseBool hasH with
-    | some mf, some h => ({ active := true, maxfun := mf, hasH := h }, "")
-    | _, _ => (st, "bad-op")
+  | ["begin", maxfun, hasH, mu, atol] =>
+    match maxfun.toNat?, parseBool hasH, mu.toNat?, parseVal atol with
+    | some mf, some h, some mu, some atol => ({ active := true, maxfun := mf, hasH := h, maxUnsucc := mu, absTol := atol }, "")
+    | _, _, _, _ => (st, "bad-op")
   | ["end"] =>
     match st.bad with
     | some b => ({}, "malformed " ++ b)
-    | none => ({}, report st.maxfun st.hasH st.evs.toList)
+    | none => ({}, report st.maxfun st.hasH st.maxUnsucc st.absTol st.evs.toList)
   | _ =>
     match parseEv ts with
     | some e => ({ st with evs := st.evs.push e }, "")
